@@ -287,7 +287,7 @@ pub fn run_c14(ctx: &Ctx) -> ! {
     let mut rep = Report::new(
         ctx,
         "exploration",
-        "the complete D-uri product (62 720 target URIs, see C13) through the private URL mapper (cfg-guarded hook verif_transport_url); result split by the string-level splitter R3 and compared component-wise: ipp->http, ipps->https, http/https kept; port = given, else 631 for both ipp and ipps; host, user-info, path (\"\" = \"/\") and query unchanged. distinct = URI index; non-trivial = accepted by http::Uri",
+        "the complete D-uri product (62 720 target URIs, see C13) through the private URL mapper (cfg-guarded hook verif_transport_url); result split by the string-level splitter R3 and compared component-wise: ipp->http, ipps->https, http/https kept; port = given, else 631 for both ipp and ipps; host, user-info, path (\"\" = \"/\") and query unchanged; and what the two clients do with that mapping, observed by a loopback peer (child process of the network engine): request target, Host header and connection count for scheme {ipp, http} x host {127.0.0.1, localhost} x user-info(4) x path(7) x query(5) ('@', ':' and '/' inside path and query) x client configuration {plain, basic_auth, custom header, Authorization header} = 4 480 exchanges. distinct = URI index; non-trivial = accepted by http::Uri",
     );
     rep.assume("hook verif_transport_url is a pure pass-through to ipp_uri_to_string (add-only, cfg(ipp_verif)); that the clients really contact the URL this function returns is observed on the wire (section transport-url-on-the-wire)");
     if let Some(p) = &ctx.replay {
@@ -419,7 +419,7 @@ pub fn run_c16(ctx: &Ctx) -> ! {
     let mut rep = Report::new(
         ctx,
         "exploration",
-        "complete finite domains: all 65 536 16-bit codes through StatusCode::from_u16 / IppHeader::status_code / is_success and through Operation::from_u16; all 256 bytes through DelimiterTag::from_u8 and ValueTag::from_u8; i32 -1..=300 through PrinterState, JobState, Orientation, PrintQuality, Finishings; IppValue::to_tag of each kind; against registry tables typed in from RFC 8010/8011, PWG 5100.1 and the CUPS specification (identifier names compared after normalisation). distinct = (table, code); non-trivial = code present in the registry",
+        "complete finite domains: all 65 536 16-bit codes through StatusCode::from_u16 / IppHeader::status_code / is_success - the header-level decoding for protocol versions {1.1, 1.0, 2.0, 2.1, 2.2, 0.0, 3.0, ff.ff} x request-id {1, 0, 2^32-1}, on headers built in memory and on parsed responses - and through Operation::from_u16; all 256 bytes through DelimiterTag::from_u8 and ValueTag::from_u8; i32 -1..=300 through PrinterState, JobState, Orientation, PrintQuality, Finishings; IppValue::to_tag of each kind; against registry tables typed in from RFC 8010/8011, PWG 5100.1 and the CUPS specification (identifier names compared after normalisation). distinct = (table, code); non-trivial = code present in the registry",
     );
     rep.assume("registry tables R2 in vmc::registry were typed in correctly from the RFCs");
     let mut st = Stats::new();
